@@ -267,6 +267,10 @@ pub fn run(tier: Tier) -> Report {
             cfgs.push(Cfg { contacts, outages: false, minutes: tier.pick(20, 60), latency: 20, unreachable_hearsay: contacts == 1, search_every_ms: Some(every), send_delay_ms: delay, poll_bootstrapped_ms: None, recv_error_every_ms: None, stall: None, rng_seed: 1 + seed });
         }
     }
+    // a node without anybody to ask (first node of a network) whose application keeps retrying its searches
+    for every in [100u64, 1_000] {
+        cfgs.push(Cfg { contacts: 0, outages: false, minutes: 5, latency: 20, unreachable_hearsay: false, search_every_ms: Some(every), send_delay_ms: 0, poll_bootstrapped_ms: None, recv_error_every_ms: None, stall: None, rng_seed: 1 + seed });
+    }
     // receive errors (ICMP errors surfacing on the socket) and a send_to that blocks for a minute
     for contacts in [1usize, 3] {
         for every in [2_000u64, 700] {
